@@ -46,12 +46,11 @@ def Task.isDone : Task → Bool
   | .done _ => true
   | _ => false
 
-/-- The verdict token of an interval task: the tick indices `(tick - start) / period` when the
-period is at least 20 ms (the harness then keeps every call at least 10 ms away from a tick
-boundary, so real-time jitter cannot change them), otherwise only the number of ticks. -/
-def tickToken (start period : Nat) (ticks : List Nat) : String :=
-  if period ≥ 20 then "ticks:" ++ "/".intercalate (ticks.map fun t => toString ((t - start) / period))
-  else s!"ticks#{ticks.length}"
+/-- The verdict token of an interval task: the number of ticks delivered. (Which multiples of the
+period they are depends on real-time jitter in a real run; the harness judges every tick instant
+with its monitors, and ties `Interval.tickDeadline` to the code with the `ivx` lines, whose margins
+are seconds.) -/
+def tickToken (_start _period : Nat) (ticks : List Nat) : String := s!"ticks#{ticks.length}"
 
 /-- One transition of task `id` at time `now`. Returns the new wheel, the new task state and whether
 the task can make further progress right now (`false` = it returned `Poll::Pending` or finished). -/
